@@ -199,6 +199,7 @@ func init() {
 type timerRec struct {
 	ch      *gchan
 	stopped bool
+	d       value // the duration it was armed with
 }
 
 var activeTimers []*timerRec
@@ -207,7 +208,7 @@ func init() {
 	externals["time.NewTimer"] = func(fr *frame, a []value) value {
 		usedIntrinsics["time.NewTimer(fires when the harness environment says so)"]++
 		ch := makeChan(1)
-		tr := &timerRec{ch: ch}
+		tr := &timerRec{ch: ch, d: a[0]}
 		old := activeTimers
 		trailUndo(func() { activeTimers = old })
 		activeTimers = append(append([]*timerRec{}, activeTimers...), tr)
@@ -242,6 +243,16 @@ func init() {
 			}
 		}
 		return false
+	}
+	// vTimerArmedNs(): the duration the strand's pending timer was armed with (-1: none)
+	externals[hpkg+"vTimerArmedNs"] = func(fr *frame, a []value) value {
+		for i := len(activeTimers) - 1; i >= 0; i-- {
+			tr := activeTimers[i]
+			if !tr.stopped && len(tr.ch.buf) == 0 {
+				return tr.d
+			}
+		}
+		return int64(-1)
 	}
 	externals[hpkg+"vActiveTimers"] = func(fr *frame, a []value) value {
 		n := 0
